@@ -46,8 +46,8 @@ Definition sig_args (args : list string) (i : nat) : sigrr :=
 
 Definition run (fn : string) (args : list string) : string :=
   if String.eqb fn "sign" then
-    show_res hex (sig0_sign (sign_inst (arg args 9)) (undec (arg args 0)) (undec (arg args 1))
-                            (unhex (arg args 2)) (sig_args args 3))
+    show_res hex (sig0_sign (sign_inst (arg args 8)) (undec (arg args 0))
+                            (unhex (arg args 1)) (sig_args args 2))
   else if String.eqb fn "verify" then
     show_res show_unit (sig0_verify (check_inst (arg args 9)) (sig_args args 0)
                                     (labels_of (unhex (arg args 6))) (unhex (arg args 7))
